@@ -11,7 +11,9 @@ FMAX = sys.float_info.max
 SCALES = [0.1, 0.25, 0.001, 3, 1e6, 0.5, 1e-3, 7e-5]
 ENUMS = [{'a': 1, 'b': 2}, {'off': 0, 'on': 1}, {'x': -3, 'y': 100, 'z': 7}, {'single': 5},
          {'lo': -2147483648, 'hi': 2147483647}, {'n0': 0, 'n1': 1, 'n2': 2, 'n5': 5, 'big': 1 << 40},
-         {'idle': 100, 'busy': 300, 'error': 400}]
+         {'idle': 100, 'busy': 300, 'error': 400},
+         # labels that look like numbers (gain / range selectors) and are the code of ANOTHER member
+         {'1': 0, '2': 1, '4': 2, '8': 3}, {'10': 1, '1': 10, 'x': 2}]
 UNITS = ['', 'K', 'mbar/s', '$', '$/min', 'µm']
 ASCII_ALPHA = 'ab"\\\n\t xyz\'[](),{}:0159-.#'
 UTF_ALPHA = ASCII_ALPHA + 'äπ€𝄞é'
@@ -365,6 +367,13 @@ def _py_hostile_at(di, c, rng):
         n = rng.choice(sorted(c))
         if n in di['members']:
             return dict(c, **{n: _py_hostile_at(di['members'][n], c[n], rng)})
+    if t == 'enum' and rng.random() < 0.6:
+        # a member object of ANOTHER enum that carries the same name (an extended copy, the enum of an equally named
+        # parameter of another module): marker, turned into a real member object by the check
+        codes = sorted(di['members'].values())
+        code = rng.choice(codes + [max(codes) + 1, min(codes) - 1, max(codes) + 100])
+        label = rng.choice(['foreign', 'extra'] + list(di['members']))
+        return {'__foreign_enum__': [code, label]}
     return rng.choice(PY_HOSTILE)
 
 
